@@ -694,7 +694,7 @@ std::string run_entry(
       // deduced: it must be given explicitly)
       world<Ch, fsk::epsilon> const we{w.parser_ast(), w.skipper_ast()};
       res = to_gres<Ch>(
-          fp::parse_stream<Ch, typename world<Ch, fsk::epsilon>::base_t, fsk::epsilon>(we.start(), *is));
+          fp::parse_stream(we.start(), *is));
       break;
     }
     default:
